@@ -23,16 +23,26 @@ PolicyStep(pre, ev) ==
        THEN LET x == RApply(ev, StOf(pre)) IN x.st = StOf(ev.obs) /\ x.ret = ev.ret
        ELSE StOf(ev.obs) = StOf(pre)
 \* C15: the callback received exactly the departing entries, once each, in departure order
-\* (a pair handed straight back by a capacity-0 cache never entered it: either answer accepted)
+\* (a pair handed straight back by a capacity-0 cache never entered it: either answer accepted).
+\* When the step itself is the specification's step (C06 holds for it), the entries leave in the specification's
+\* order and the callback log must equal the specification's.  When the step is NOT the specification's (a policy
+\* defect: C06's business, reported there), the order of leaving cannot be observed from outside, and C15 is judged
+\* on what can: the log holds exactly the entries that were resident before and are gone after, each once.
+DepartedObs(pre, post) ==
+  LET keep == {post.list[i].k : i \in 1..Len(post.list)}
+  IN {<<pre.list[i].k, pre.list[i].v>> : i \in {j \in 1..Len(pre.list) : pre.list[j].k \notin keep}}
 C15Step(pre, ev) ==
   IF ev.op = "drop" THEN TRUE
   ELSE IF ev.panic THEN TRUE
   ELSE IF ~RWellFormed(StOf(pre)) THEN TRUE
   ELSE IF ev.op \notin SpecOps THEN ev.cb = <<>>
   ELSE LET x == RApply(ev, StOf(pre)) IN
-       \/ ev.cb = x.cb
-       \/ pre.cap = 0 /\ ev.op \in PutLikeOps /\ IsPutResult(EvPR(ev)) /\ EvPR(ev).t = "Evicted"
-            /\ ev.cb = <<<<ev.k, ev.v>>>>
+       IF x.st = StOf(ev.obs)
+       THEN \/ ev.cb = x.cb
+            \/ pre.cap = 0 /\ ev.op \in PutLikeOps /\ IsPutResult(EvPR(ev)) /\ EvPR(ev).t = "Evicted"
+                 /\ ev.cb = <<<<ev.k, ev.v>>>>
+       ELSE /\ SeqToSet(ev.cb) = DepartedObs(pre, ev.obs)
+            /\ Len(ev.cb) = Cardinality(DepartedObs(pre, ev.obs))
 
 \* C16: a clone is observationally identical at the moment of cloning (capacity, every partition in
 \* order with values, estimator state), behaves identically afterwards, and is independent
